@@ -327,15 +327,16 @@ Proof.
 Qed.
 
 (* a replay list that is exhausted returns and is popped *)
-Lemma task_pop (s : st) v rest f2 tl :
+Lemma task_pop (s : st) v rest top f2 tl v' :
   pc s = PcSleep0 -> must_cancel s = false -> state s = Running -> permit s = true ->
-  stashed s = None -> exc_slot s = None -> resps s = RVal v :: rest -> plans s = FList [] :: f2 :: tl ->
+  stashed s = None -> exc_slot s = None -> resps s = RVal v :: rest -> plans s = top :: f2 :: tl ->
+  frame_resume top (Send v) = (Returned v', []) ->
   List.length rest = S (List.length tl) ->
   task_step s = (set_pc (pop_plan (set_resps (set_must_cancel s false) rest)) PcSleep0, ((([] ++ []) ++ []) ++ [OTask WSleep0])).
 Proof.
-  intros Hpc Hmc Hst Hpm Hsh Hex Hrs Hpl Hlen.
+  intros Hpc Hmc Hst Hpm Hsh Hex Hrs Hpl Hfr Hlen.
   eapply task_step_dterm with (n := 4); [unfold RE_Inv.tentry; cbv zeta; rewrite Hpc, Hmc; reflexivity | | lia].
-  eapply dterm_step; [eapply d_after_return_more with (v' := VNone) (po := []); simp_st; try eassumption; reflexivity|].
+  eapply dterm_step; [eapply d_after_return_more with (v' := v') (po := []); simp_st; eassumption|].
   eapply dterm_step; [apply d_continue|]. cbv iota.
   eapply dterm_step; [apply d_top_running; simp_st; assumption|].
   eapply dterm_stop. apply d_body; simp_st; [rewrite Hpl; cbn [List.tl List.length]; exact Hlen | assumption].
@@ -460,7 +461,8 @@ Lemma finalize_done (s : st) r pend :
   forallb is_single (plans s) = true -> bundlers s = [] -> stashed s = None -> allowed (state s) Idle = true ->
   exists s' o,
     finalize s r pend = (s', o) /\
-    pc s' = PcDone (match pend with Some e => TRaise e | None => r end) /\ state s' = Idle /\ main_err s' = main_err s /\
+    pc s' = PcDone (match pend with Some e => TRaise e | None => r end) /\ state s' = Idle /\
+    (main_err s' = main_err s /\ cache s' = cache s) /\
     final_events o = [] /\ stops o = [] /\
     no_raise o = res_ok (match pend with Some e => TRaise e | None => r end).
 Proof.
@@ -471,7 +473,7 @@ Proof.
   simp_st. unfold RE.close_runs, RE.close_frames, RE.set_state. simp_st.
   rewrite C2, Hbs, K5, K7, Hsh, K1, Hal. rewrite (close_singles (rev (plans s))) by (rewrite forallb_rev; exact Hpl).
   cbn [flat_map app].
-  do 2 eexists. split; [reflexivity|]. simp_st. split; [reflexivity|]. split; [reflexivity|]. split; [exact K13|].
+  do 2 eexists. split; [reflexivity|]. simp_st. split; [reflexivity|]. split; [reflexivity|]. split; [split; [exact K13 | exact C1]|].
   destruct (devonly_final_events _ Q2) as [F2 G2]. destruct (devonly_final_events _ Q3) as [F3 G3].
   rewrite !final_events_app, !stops_app, F2, F3, G2, G3. split; [reflexivity|]. split; [reflexivity|].
   rewrite !no_raise_app, (devdoc_no_raise _ (devonly_devdoc _ Q2)), (devdoc_no_raise _ (devonly_devdoc _ Q3)).
